@@ -103,11 +103,13 @@ def gen_sapi(seed, tier):
     for n1 in (0, 1, 2, 4):
         for n2 in (0, 1, 3, 5):
             cases.append(Case("sapi", "m%d" % i, [L(3, n1, n2, 0), L(3, n1, n2, 1)])); i += 1
+    cases.append(Case("sapi", "q%d" % i, [L(4, n) for n in (0, 1, 2, 5, 8, 0)])); i += 1
     for _ in range(15 if tier == "quick" else 150):
         ops = []
         for _ in range(rng.randint(2, 8)):
-            k = rng.choice([1, 2, 3])
-            ops.append(L(k, rng.randint(0, 12), rng.randint(0, 1)) if k < 3 else L(3, rng.randint(0, 8), rng.randint(0, 8), rng.randint(0, 1)))
+            k = rng.choice([1, 2, 3, 4])
+            if k == 4: ops.append(L(4, rng.randint(0, 8)))
+            else: ops.append(L(k, rng.randint(0, 12), rng.randint(0, 1)) if k < 3 else L(3, rng.randint(0, 8), rng.randint(0, 8), rng.randint(0, 1)))
         if rng.random() < 0.2: ops.insert(rng.randrange(len(ops) + 1), rng.choice([L(1, 13, 0), L(3, 1, 9, 0), L(4), L(2, 1, 2)]))
         cases.append(Case("sapi", "r%d" % i, ops)); i += 1
     return cases
